@@ -101,17 +101,95 @@ Proof. induction vals as [|v t IH]; [reflexivity|]. cbn [flat_map]. rewrite lenN
 Lemma as_i32_as_u32 z : (0 <= z < 2147483648)%Z -> as_i32 (as_u32 z) = z.
 Proof. intro H. rewrite as_u32_small by lia. rewrite as_i32_small by lia. lia. Qed.
 
-(* ------------------------------------------------------------------------------------------ PSF2 round trip *)
-Lemma glyph_range_all len gl : (0 <= len <= Z.of_N MAX_GLYPHS)%Z -> lenN gl = Z.to_N len -> glyph_range len gl = Ok gl.
+(* ------------------------------------------------------------------------------------------ the glyph loop of the writers *)
+(* every code the loaders can produce is a char: the `char::from_u32` check in glyphs_from_u8_data never fails
+   under its loop guard, and the writers find every glyph of a font with at most MAX_GLYPHS codes *)
+Lemma max_glyphs_are_chars c : c < MAX_GLYPHS -> is_char c = true.
 Proof.
-  intros Hl Hn. unfold glyph_range.
-  destruct (Z.leb_spec len 0) as [H0|H0].
-  - assert (len = 0%Z) by lia. subst len. destruct gl; [reflexivity | cbn in Hn; lia].
-  - rewrite Hn, N.ltb_irrefl.
-    replace (MAX_GLYPHS <? Z.to_N len) with false by (symmetry; apply N.ltb_ge; lia).
-    replace (N.to_nat (Z.to_N len)) with (length gl) by (unfold lenN in Hn; lia).
-    rewrite firstn_all. reflexivity.
+  unfold MAX_GLYPHS, is_char. intro H.
+  replace (c <? 55296) with true by (symmetry; apply N.ltb_lt; exact H). reflexivity.
 Qed.
+
+(* what the writers emit for the codes 0..k: the glyph where there is one, `h` zero rows where it is missing *)
+Fixpoint pad_glyphs (gl : list (list N)) (k : nat) (h : Z) : list (list N) :=
+  match k with
+  | O => []
+  | S k' => match gl with g :: _ => g | [] => repeat 0 (Z.to_nat h) end :: pad_glyphs (tl gl) k' h
+  end.
+Definition pad_font (f : font) : font :=
+  mkFont (f_w f) (f_h f) (f_len f) (pad_glyphs (f_glyphs f) (Z.to_nat (f_len f)) (f_h f)).
+
+Lemma pad_glyphs_all gl h : pad_glyphs gl (length gl) h = gl.
+Proof. induction gl as [|g t IH]; [reflexivity|]. cbn [length pad_glyphs tl]. rewrite IH. reflexivity. Qed.
+
+Lemma pad_glyphs_length h k : forall gl, length (pad_glyphs gl k h) = k.
+Proof. induction k as [|k IH]; intro gl; [reflexivity|]. cbn [pad_glyphs length]. rewrite IH. reflexivity. Qed.
+
+Lemma pad_glyphs_rows h k : (0 <= h)%Z -> forall gl, rows_ok (Z.to_N h) gl -> rows_ok (Z.to_N h) (pad_glyphs gl k h).
+Proof.
+  intro Hh. induction k as [|k IH]; intros gl Hr; [constructor|].
+  cbn [pad_glyphs]. constructor.
+  - destruct Hr as [|g t Hg Ht]; [|exact Hg]. unfold lenN. rewrite repeat_length. lia.
+  - apply IH. destruct Hr as [|g t Hg Ht]; [constructor | exact Ht].
+Qed.
+
+Lemma pad_font_id f : lenN (f_glyphs f) = Z.to_N (f_len f) -> pad_font f = f.
+Proof.
+  destruct f as [w h len gl]. unfold pad_font. cbn [f_w f_h f_len f_glyphs]. intro Hn.
+  replace (Z.to_nat len) with (length gl) by (unfold lenN in Hn; lia).
+  rewrite pad_glyphs_all. reflexivity.
+Qed.
+
+Lemma glyph_bytes_pad h : (0 <= h)%Z -> forall k gl c, c + N.of_nat k <= MAX_GLYPHS ->
+  glyph_bytes gl k c h = Ok (concat (pad_glyphs gl k h)).
+Proof.
+  intro Hh. induction k as [|k IH]; intros gl c Hc; [reflexivity|].
+  cbn [glyph_bytes pad_glyphs concat].
+  rewrite max_glyphs_are_chars by lia.
+  unfold empty_glyph. replace (h <? 0)%Z with false by (symmetry; apply Z.ltb_ge; exact Hh).
+  rewrite IH by lia.
+  destruct gl; reflexivity.
+Qed.
+
+Lemma all_glyph_bytes_pad f : (0 <= f_h f)%Z -> (f_len f <= Z.of_N MAX_GLYPHS)%Z ->
+  all_glyph_bytes f = Ok (concat (pad_glyphs (f_glyphs f) (Z.to_nat (f_len f)) (f_h f))).
+Proof.
+  intros Hh Hl. unfold all_glyph_bytes. destruct (Z.leb_spec (f_len f) 0) as [H0|H0].
+  - replace (Z.to_nat (f_len f)) with O by lia. reflexivity.
+  - apply glyph_bytes_pad; [exact Hh | lia].
+Qed.
+
+(* the writers return for EVERY glyph table, length and non-negative height (no unwrap, no unchecked char any more) *)
+Lemma glyph_bytes_ok h : (0 <= h)%Z -> forall k gl c, exists bs, glyph_bytes gl k c h = Ok bs.
+Proof.
+  intro Hh. induction k as [|k IH]; intros gl c; [eexists; reflexivity|].
+  cbn [glyph_bytes]. destruct (IH (tl gl) (c + 1)) as [r ->].
+  unfold empty_glyph. replace (h <? 0)%Z with false by (symmetry; apply Z.ltb_ge; exact Hh).
+  destruct gl as [|g t]; [|destruct (is_char c)]; eexists; reflexivity.
+Qed.
+
+Lemma all_glyph_bytes_ok f : (0 <= f_h f)%Z -> exists bs, all_glyph_bytes f = Ok bs.
+Proof.
+  intro Hh. unfold all_glyph_bytes. destruct (f_len f <=? 0)%Z; [eexists; reflexivity|].
+  apply glyph_bytes_ok. exact Hh.
+Qed.
+
+Lemma to_psf2_bytes_total_proof f : (0 <= f_h f)%Z -> safe (to_psf2_bytes f).
+Proof. intro Hh. unfold to_psf2_bytes. destruct (all_glyph_bytes_ok f Hh) as [bs ->]. exact I. Qed.
+
+Lemma convert_total_proof f : (0 <= f_h f)%Z -> safe (convert_to_u8_data f).
+Proof. intro Hh. unfold convert_to_u8_data. destruct (all_glyph_bytes_ok f Hh) as [bs ->]. exact I. Qed.
+
+(* the only panic left in the writers: a negative height and a code without glyph *)
+Lemma to_psf2_bytes_negative_height_refuted : exists f, to_psf2_bytes f = Panic 6 /\ convert_to_u8_data f = Panic 6.
+Proof. exists (mkFont 8 (-1) 1 []). split; reflexivity. Qed.
+
+(* ------------------------------------------------------------------------------------------ PSF2 round trip *)
+(* fonts the PSF2 writer/loader pair is defined for, with ANY number of glyphs present: the loader returns the font
+   padded with empty glyphs up to `length` (and cut at `length`) *)
+Definition wf_psf2_partial (f : font) : Prop :=
+  (0 <= f_w f < 2147483648)%Z /\ (1 <= f_h f < 2147483648)%Z /\ (0 <= f_len f <= Z.of_N MAX_GLYPHS)%Z /\
+  rows_ok (Z.to_N (f_h f)) (f_glyphs f).
 
 Lemma from_bytes_psf2_magic rest : from_bytes (u32le PSF2_MAGIC ++ rest) = load_psf2 (u32le PSF2_MAGIC ++ rest).
 Proof.
@@ -124,12 +202,17 @@ Proof.
   reflexivity.
 Qed.
 
-Lemma psf2_roundtrip_proof f : wf_psf2_font f ->
-  exists bs, to_psf2_bytes f = Ok bs /\ from_bytes bs = Ok f.
+Lemma psf2_padded_proof f : wf_psf2_partial f ->
+  exists bs, to_psf2_bytes f = Ok bs /\ from_bytes bs = Ok (pad_font f).
 Proof.
-  intros (Hw & Hh & Hl & Hn & Hr).
-  destruct f as [w h len gl]. cbn [f_w f_h f_len f_glyphs] in *.
-  unfold to_psf2_bytes. cbn [f_w f_h f_len f_glyphs]. rewrite glyph_range_all by assumption. cbn [bind].
+  intros (Hw & Hh & Hl & Hr0).
+  destruct f as [w h len gl0]. unfold pad_font. cbn [f_w f_h f_len f_glyphs] in *.
+  unfold to_psf2_bytes. rewrite all_glyph_bytes_pad by (cbn [f_h f_len]; lia).
+  cbn [f_w f_h f_len f_glyphs bind].
+  set (gl := pad_glyphs gl0 (Z.to_nat len) h).
+  assert (Hn : lenN gl = Z.to_N len) by (unfold gl, lenN; rewrite pad_glyphs_length; lia).
+  assert (Hr : rows_ok (Z.to_N h) gl) by (apply pad_glyphs_rows; [lia | exact Hr0]).
+  clearbody gl. clear Hr0 gl0.
   eexists. split; [reflexivity|].
   rewrite from_bytes_psf2_magic.
   set (vals := [PSF2_MAGIC; 0; PSF2_HEADERSIZE; 0; as_u32 len; as_u32 h; as_u32 h; as_u32 w]).
@@ -162,16 +245,21 @@ Proof.
   rewrite !as_i32_as_u32 by lia. reflexivity.
 Qed.
 
-(* ------------------------------------------------------------------------------------------ raw round trip *)
-Lemma raw_from_all gl h : raw_from gl (length gl) h = Ok (concat gl).
-Proof. induction gl as [|g t IH]; [reflexivity|]. cbn [length raw_from concat]. rewrite IH. reflexivity. Qed.
+Lemma psf2_roundtrip_proof f : wf_psf2_font f ->
+  exists bs, to_psf2_bytes f = Ok bs /\ from_bytes bs = Ok f.
+Proof.
+  intros (Hw & Hh & Hl & Hn & Hr).
+  destruct (psf2_padded_proof f) as (bs & E1 & E2); [repeat split; assumption || lia|].
+  exists bs. split; [exact E1|]. rewrite E2, pad_font_id by exact Hn. reflexivity.
+Qed.
 
+(* ------------------------------------------------------------------------------------------ raw round trip *)
 Lemma convert_raw f : wf_raw_font f -> convert_to_u8_data f = Ok (concat (f_glyphs f)).
 Proof.
-  intros (Hw & Hh & Hl & Hn & Hr). unfold convert_to_u8_data. rewrite Hl.
-  change (256 <=? 0)%Z with false. change (MAX_GLYPHS <? Z.to_N 256) with false. cbv iota.
-  replace (N.to_nat (Z.to_N 256)) with (length (f_glyphs f)) by (unfold lenN in Hn; lia).
-  apply raw_from_all.
+  intros (Hw & Hh & Hl & Hn & Hr). unfold convert_to_u8_data.
+  rewrite all_glyph_bytes_pad by (unfold MAX_GLYPHS; lia).
+  rewrite Hl. replace (Z.to_nat 256) with (length (f_glyphs f)) by (unfold lenN in Hn; lia).
+  rewrite pad_glyphs_all. reflexivity.
 Qed.
 
 Lemma create_8_concat f : wf_raw_font f -> create_8 8 (Z.to_N (f_h f)) (concat (f_glyphs f)) = f.
@@ -186,6 +274,28 @@ Lemma raw_roundtrip_proof f : wf_raw_font f ->
 Proof.
   intro H. exists (concat (f_glyphs f)). split; [apply convert_raw; assumption|].
   split; [apply create_8_concat; assumption|]. apply (create_8_concat f H).
+Qed.
+
+(* a 256 glyph font with glyphs missing: the raw data is padded, the readers return the padded font *)
+Definition wf_raw_partial (f : font) : Prop :=
+  f_w f = 8%Z /\ (1 <= f_h f <= 255)%Z /\ f_len f = 256%Z /\ rows_ok (Z.to_N (f_h f)) (f_glyphs f).
+
+Lemma pad_font_raw f : wf_raw_partial f -> wf_raw_font (pad_font f).
+Proof.
+  intros (Hw & Hh & Hl & Hr). unfold wf_raw_font, pad_font. cbn [f_w f_h f_len f_glyphs].
+  repeat split; try assumption; try lia.
+  - unfold lenN. rewrite pad_glyphs_length, Hl. reflexivity.
+  - apply pad_glyphs_rows; [lia | exact Hr].
+Qed.
+
+Lemma raw_padded_proof f : wf_raw_partial f ->
+  exists raw, convert_to_u8_data f = Ok raw /\ create_8 8 (Z.to_N (f_h f)) raw = pad_font f /\
+              from_basic 8 (Z.to_N (f_h f)) raw = pad_font f.
+Proof.
+  intro H. pose proof (pad_font_raw f H) as Hp. destruct H as (Hw & Hh & Hl & Hr).
+  exists (concat (f_glyphs (pad_font f))). split.
+  - unfold convert_to_u8_data. apply all_glyph_bytes_pad; unfold MAX_GLYPHS; lia.
+  - pose proof (create_8_concat _ Hp) as E. cbn [pad_font f_h] in E. split; exact E.
 Qed.
 
 (* loading raw data through from_bytes (the DCS path and the built-in .F08/.F14/.F16 files) *)
@@ -266,7 +376,9 @@ Proof. exact (digits_fuel_nonempty 19 n []). Qed.
 
 Lemma parse_dec_digits n : n < 18446744073709551616 -> parse_usize (dec_digits n) = Some n.
 Proof.
-  intro Hn. destruct (digits_fuel_spec 20 n) as [F V]; [cbn; lia|].
+  intro Hn.
+  assert (E20 : 10 ^ N.of_nat 20 = 100000000000000000000) by (vm_compute; reflexivity).
+  destruct (digits_fuel_spec 20 n) as [F V]; [rewrite E20; lia|]. clear E20.
   fold (dec_digits n) in F, V.
   destruct (dec_digits_nonempty n) as (c & t & E).
   unfold parse_usize. rewrite E. rewrite E in F.
